@@ -67,3 +67,36 @@ Theorem C04_phase_monitor_sound :
     NoDup (map (desired_key (pc_owner c)) (pc_objects c)) -> m04p (set_obs c (model_run c)) = true.
 Proof. exact m04p_objectset_sound. Qed.
 Print Assumptions C04_phase_monitor_sound.
+
+(** The controller-level monitor m04 (coq/corr/SetMonitors.v: reverse order over the local phases; finalizer removed /
+    Archived=True only when every listed object is gone or released; until then the finalizer stays and an archived
+    set reports Archived=False; nothing deleted under orphan propagation) accepts every pass of the model. *)
+From PKOCorr Require Import SetCorr SetMonitors SetMonSound SetMonSound2.
+Theorem C04_set_monitor_sound : forall c : scase, m04 (set_obs_s c (SetCorr.model_run c)) = true.
+Proof. exact m04_sound. Qed.
+Print Assumptions C04_set_monitor_sound.
+
+(** The delegated part of the C04 / C05 check (m04d = C15Corr.m_teardown: nothing deleted under orphan propagation; a
+    phase object deleted only after it was read and found controlled; a write to phase j only after every later
+    delegated phase was seen gone; finalizer removal / Archived=True only after every delegated phase was seen gone).
+    REFUTED as an acceptance claim over all cases: unlike m04, this monitor is not guarded by the distinctness of the
+    listed keys, and it attributes a member request to the FIRST local phase naming the key; on [x_dupkey_del_case] (the
+    same ConfigMap in phases 1 and 3, a delegated phase in between) it raises a false alarm on the model itself. *)
+Theorem C04_set_monitor_delegated_refuted :
+  exists c : scase, going_keys_nodup c = false /\ m04d (set_obs_s c (SetCorr.model_run c)) = false.
+Proof. exact m04d_refuted. Qed.
+Print Assumptions C04_set_monitor_delegated_refuted.
+
+(** Partial (excluded: ObjectSets being deleted / archived, with distinct phase-object names, in which two DIFFERENT local
+    phases list the same object identity - weaker than the guard m04 itself carries, which also excludes a repetition
+    within one phase): otherwise the monitor accepts every pass of the model. *)
+Theorem C04_set_monitor_delegated_sound_partial :
+  forall c : scase, going_keys_nodup c = true -> m04d (set_obs_s c (SetCorr.model_run c)) = true.
+Proof. exact m04d_sound_partial. Qed.
+Print Assumptions C04_set_monitor_delegated_sound_partial.
+
+Example C04_set_monitor_delegated_hypothesis_satisfiable :
+  going_keys_nodup x_del_case = true /\
+  map ev_key (members (set_obs_s x_del_case (SetCorr.model_run x_del_case))) = [x_key 1 1].
+Proof. exact m04d_hypothesis_satisfiable. Qed.
+Print Assumptions C04_set_monitor_delegated_hypothesis_satisfiable.
